@@ -47,6 +47,7 @@ def run_prop(prop):
                 sh('git', '-C', wt, 'checkout', 'HEAD', '--', '.')
                 a = sh('git', '-C', wt, 'apply', '--3way', d + '/patch.diff')   # (rebased kit entries; the scratch index is reset below)
             if a.returncode != 0:
+                sh('git', '-C', wt, 'checkout', 'HEAD', '--', '.')      # (a failed 3-way attempt leaves conflict markers behind)
                 out.append((n, 'PATCH DOES NOT APPLY', None))
                 continue
             p = sh('/verif/check', prop, '--tier', 'quick', cwd='/verif', env=env)
